@@ -50,8 +50,6 @@ class PCTypePlain:
     props = ["C01", "C18"]
     observable = "result"
     cases = {"id": dict(n=1), "id id": dict(n=2), "id DOT id": dict(n=3)}
-    # `id id` / `id DOT id` go through strip() / replace() chains neither solver decides: those two cases are
-    # decided by the function-level BOUNDED fallback (random admissible inputs on the real function)
 
     def build(G, case):
         alt = case["_name"]
